@@ -151,7 +151,7 @@ func zrC14StopSets(thorough bool) [][]string {
 	for _, s := range singles {
 		sets = append(sets, []string{s})
 	}
-	pairs := [][2]string{{"a", "ab"}, {"b", "ab"}, {"b", "ba"}, {"b\n", "b"}, {"é", "a"}, {"ab", "ba"}}
+	pairs := [][2]string{{"a", "b"}, {"a", "ab"}, {"b", "ab"}, {"b", "ba"}, {"b\n", "b"}, {"é", "a"}, {"ab", "ba"}}
 	if thorough {
 		pairs = nil
 		for i := range singles {
